@@ -92,8 +92,8 @@ LEVEL_NOTE = ("The unconditional statement is false of the pinned code (findings
 
 def plan(tier, seed):
     if tier == "quick":
-        return [("C14", seed, 600, []), ("C14flag", seed, 20000, [])]
-    return [("C14", seed + k, 6000, []) for k in range(10)] + [("C14flag", seed, 1000000, [])]
+        return [("C14", seed, 600, []), ("C14flag", seed, 20000, []), ("C14rx", seed, 10000, [])]
+    return [("C14", seed + k, 6000, []) for k in range(10)] + [("C14flag", seed, 1000000, []), ("C14rx", seed, 1000000, ["big"])]
 
 
 def search_plan(seed):
@@ -107,6 +107,9 @@ def _class(obs):
 
 def compare(c):
     """inside the modelled space the predicted class must be the observed one; elsewhere only the spec verdict counts"""
+    if c.op == "C14.rx":
+        # the tree (or the error code) of regexp/syntax and the verdict of RegexFlag.Set: equal strings
+        return c.model == c.observed
     if c.op == "C14.flag":
         # a flag value: accepted/rejected and the value must agree; "?" = outside the modelled regexp sublanguage,
         # "ok m=?" = the expression compiles but Model/Str.v cannot express what it matches
@@ -121,6 +124,8 @@ def compare(c):
 
 
 def nontrivial(c):
+    if c.op == "C14.rx":
+        return True
     if c.op == "C14.flag":
         return c.model != "?"
     cl = _class(c.observed)
@@ -135,8 +140,18 @@ def distribution(cases):
     d = {"by_cmd": {}, "by_class": {}, "predicted": 0, "predicted_err": 0, "predicted_by_cmd": {},
          "trees": {"single": 0, "multi": 0, "cyclic_or_bad": 0}, "raw_flag_cases": 0, "signatures": {},
          "flag_family": {"cases": 0, "predicted": {}, "no_opinion": 0},
-         "flag_values": {}}
+         "flag_values": {}, "regexps": {"cases": 0, "parsed": 0, "errors": {}}}
     for c in cases:
+        if c.op == "C14.rx":
+            rx = d["regexps"]
+            rx["cases"] += 1
+            f = (c.observed or "").split(" ")
+            if f[0] == "ok":
+                rx["parsed"] += 1
+            else:
+                k = f[1] if len(f) > 1 else "?"
+                rx["errors"][k] = rx["errors"].get(k, 0) + 1
+            continue
         if c.op == "C14.flag":
             kind = c.input.split(" ")[0]
             fv = d["flag_values"].setdefault(kind, {"accepted": 0, "rejected": 0, "no_opinion": 0})
